@@ -638,9 +638,10 @@ def r4_attrs(L, repo, es):
                 val = canon(st.value, subst)
                 lits_s = guard_literals(cfg, cfg.node_of(st.node), subst)
                 upper = any((not p) and t.endswith(" < " + val) and t.split(" < ")[0].lstrip("-").isdigit() for t, p in lits_s)
+                # (the key names the stored attribute and the operation, not the function the operation happens to live in)
                 L.ob("C14.R4", st.mod.rel, st.func,
-                     "`%s` is stored from a received integer and later used by %s: needs 0 < value <= a finite bound" % (a, desc),
-                     "use guarded by `> 0` and store guarded by an upper bound", "use>0: %s, store guards: %s" % (pos, lit_fmt(lits_s)),
+                     "`%s` is stored from a received integer and later used by %s: needs 0 < value <= a finite bound" % (a, kind),
+                     "use guarded by `> 0` and store guarded by an upper bound", "use (%s) >0: %s, store guards: %s" % (desc, pos, lit_fmt(lits_s)),
                      pos and upper, st.node.lineno)
             continue
         if need[0] == "nonempty_list":
